@@ -1,7 +1,7 @@
 (* line protocol around the extracted heap model (coq/C05/Heap.v).
    heap text:  <root> ; id cls par nk k.. nw w.. ; ...      (par 0 = None; ids >= 1)
    "S <heap>"            -> "R <wfb> <contractb> W w:sec:depth:ref:tbl ... T id:rows:cols ..."
-   "A <heap> # op ; op"  -> "H <ok-count> <ERR|OK> ; id cls par nk k.. ; ..."   (ops: a p c | r p c | x p c n k.. | m n tgt pfx | c n) *)
+   "A <heap> # op ; op"  -> "H <ok-count> <ERR|OK> ; id cls par nk k.. ; ..."   (ops: a p c | r p c | x p c n k.. | m n tgt pfx | c n | h d u = Refs.handover) *)
 open C05_model
 let rec pos_of_int i = if i = 1 then XH else if i land 1 = 1 then XI (pos_of_int (i lsr 1)) else XO (pos_of_int (i lsr 1))
 let n_of_int i = if i = 0 then N0 else Npos (pos_of_int i)
@@ -38,6 +38,7 @@ let apply h o =
   | ["r"; p; c] -> remove_child h (n_of_int (int_of_string p)) (n_of_int (int_of_string c))
   | "x" :: p :: c :: _ :: ks -> replace_child h (n_of_int (int_of_string p)) (n_of_int (int_of_string c)) (List.map (fun k -> n_of_int (int_of_string k)) ks)
   | ["m"; n; t; pf] -> move_to h (n_of_int (int_of_string n)) (n_of_int (int_of_string t)) (pf = "1")
+  | ["h"; d; u] -> Ok (handover h (n_of_int (int_of_string d)) (n_of_int (int_of_string u)))
   | ["c"; n] -> (match copy h (n_of_int (int_of_string n)) with Some (h', _) -> Ok h' | None -> Err)
   | _ -> failwith "op"
 let () =
